@@ -25,8 +25,10 @@ class KeySet:
         """
         # Proposed fix, feel free to do something else but the idea is that we take the only key
         # of the set if no kid is specified
-        if kid is None and len(self.keys) == 1:
-            return self.keys[0]
+        if kid is None:
+            if len(self.keys) == 1:
+                return self.keys[0]
+            raise ValueError("Invalid JSON Web Key Set")
         for k in self.keys:
             if k.kid == kid:
                 return k
